@@ -366,42 +366,7 @@ def run(ctx):
                           key=f"R5.4:{cname}.{fn.name}:store-before-raise")
     ctx.floor("R5.4", "non-constructor methods of field types that both store and raise", n_methods, 3)
 
-    # ------------------------------------------------------------------ R5.5 naive means UTC
-    ctx.rule("R5.5", "every value returned by datetime.__new__ has passed the `tzinfo is None -> replace(tzinfo=UTC)` normalisation "
-                     "and is not re-assigned afterwards")
-    dn = ctx.anchor_func("flow.record.fieldtypes.datetime.__new__")
-    dcfg = CFG(dn)
-    rets = [n for n in dcfg.stmt_nodes() if isinstance(n.ast, ast.Return)]
-    ctx.floor("R5.5", "returns of datetime.__new__", len(rets), 1)
-    norm_if = None
-    for st in walk_no_nested(dn):
-        if isinstance(st, ast.If) and isinstance(st.test, ast.Compare) and norm(st.test).endswith(".tzinfo is None") and len(st.body) == 1 \
-                and isinstance(st.body[0], ast.Assign) and isinstance(st.body[0].value, ast.Call) and isinstance(st.body[0].value.func, ast.Attribute) \
-                and st.body[0].value.func.attr == "replace":
-            tz = get_kw(st.body[0].value, "tzinfo")
-            try:
-                tzv = prog.fold(ftm, tz) if tz is not None else None
-            except NotConst:
-                tzv = None
-            if isinstance(tzv, Ref) and tzv.name == "datetime.timezone.utc":
-                norm_if = st
-    if norm_if is None:
-        ctx.fail("R5.5", "datetime.__new__:normalisation", "no `if obj.tzinfo is None: obj = obj.replace(tzinfo=UTC)` statement", dn,
-                 key="R5.5:datetime.__new__:no-normalisation")
-    else:
-        var = norm(norm_if.test.left.value)
-        tnode = dcfg.node_of(norm_if)
-        fix_node = dcfg.node_of(norm_if.body[0])
-        for rn in rets:
-            returns_var = rn.ast.value is not None and norm(rn.ast.value) == var
-            dom = dcfg.dominates(tnode.id, rn.id)
-            later_defs = [n for n in dcfg.stmt_nodes() if var in stored_paths(n) and n.id != fix_node.id and n.id in dcfg.reachable(tnode.id)
-                          and rn.id in dcfg.reachable(n.id)]
-            ctx.check(returns_var and dom and not later_defs, "R5.5", "datetime.__new__:return",
-                      ("returns a value other than the normalised object" if not returns_var else
-                       "a path returns without passing the naive->UTC normalisation" if not dom else
-                       "the object is re-assigned after the normalisation" + (f" ({norm(later_defs[0].ast)})" if later_defs else "")), rn.ast,
-                      "dominated by the naive->UTC normalisation", key="R5.5:datetime.__new__:return-not-normalised")
+    check_naive_utc(ctx, "R5.5")
 
     # ------------------------------------------------------------------ R5.6 text input conversion
     ctx.rule("R5.6", "string.__new__ and datetime.__new__ decode bytes input with errors='surrogateescape'")
@@ -460,6 +425,48 @@ def run(ctx):
         ctor = [c for c in calls_in(fn) if isinstance(c.func, ast.Attribute) and c.func.attr == "__class__" or norm(c.func) in ("GroupedRecord",)]
         ctx.check(bool(ctor), "R5.7", q.replace("flow.record.base.", "") + ":constructs", "the copy is not built through the class constructor",
                   fn, "copy built by calling the record class")
+
+
+def check_naive_utc(ctx, rule):
+    prog = ctx.prog
+    ftm = prog.module("flow.record.fieldtypes")
+    # ------------------------------------------------------------------ R5.5 naive means UTC
+    ctx.rule(rule, "every value returned by datetime.__new__ has passed the `tzinfo is None -> replace(tzinfo=UTC)` normalisation "
+                     "and is not re-assigned afterwards")
+    dn = ctx.anchor_func("flow.record.fieldtypes.datetime.__new__")
+    dcfg = CFG(dn)
+    rets = [n for n in dcfg.stmt_nodes() if isinstance(n.ast, ast.Return)]
+    ctx.floor(rule, "returns of datetime.__new__", len(rets), 1)
+    norm_if = None
+    for st in walk_no_nested(dn):
+        if isinstance(st, ast.If) and isinstance(st.test, ast.Compare) and norm(st.test).endswith(".tzinfo is None") and len(st.body) == 1 \
+                and isinstance(st.body[0], ast.Assign) and isinstance(st.body[0].value, ast.Call) and isinstance(st.body[0].value.func, ast.Attribute) \
+                and st.body[0].value.func.attr == "replace":
+            tz = get_kw(st.body[0].value, "tzinfo")
+            try:
+                tzv = prog.fold(ftm, tz) if tz is not None else None
+            except NotConst:
+                tzv = None
+            if isinstance(tzv, Ref) and tzv.name == "datetime.timezone.utc":
+                norm_if = st
+    if norm_if is None:
+        ctx.fail(rule, "datetime.__new__:normalisation", "no `if obj.tzinfo is None: obj = obj.replace(tzinfo=UTC)` statement", dn,
+                 key=rule + ":datetime.__new__:no-normalisation")
+    else:
+        var = norm(norm_if.test.left.value)
+        tnode = dcfg.node_of(norm_if)
+        fix_node = dcfg.node_of(norm_if.body[0])
+        for rn in rets:
+            returns_var = rn.ast.value is not None and norm(rn.ast.value) == var
+            dom = dcfg.dominates(tnode.id, rn.id)
+            later_defs = [n for n in dcfg.stmt_nodes() if var in stored_paths(n) and n.id != fix_node.id and n.id in dcfg.reachable(tnode.id)
+                          and rn.id in dcfg.reachable(n.id)]
+            ctx.check(returns_var and dom and not later_defs, rule, "datetime.__new__:return",
+                      ("returns a value other than the normalised object" if not returns_var else
+                       "a path returns without passing the naive->UTC normalisation" if not dom else
+                       "the object is re-assigned after the normalisation" + (f" ({norm(later_defs[0].ast)})" if later_defs else "")), rn.ast,
+                      "dominated by the naive->UTC normalisation", key=rule + ":datetime.__new__:return-not-normalised")
+
 
 
 def _instantiate(fragment: str) -> str:
